@@ -53,25 +53,7 @@ Proof.
     + intros [[Hin|Hin] Hne]; tauto.
 Qed.
 
-(* ---------- tree_cid reads only what the node reaches ---------- *)
-Section TreeCidReach.
-  Variable H : pystr -> pystr.
-  Variable ct : ctable.
-  Lemma tree_cid_reach_local s s' : Rank s -> forall a,
-    (forall y, reach s a y -> c_cls (cellD s' y) = c_cls (cellD s y) /\ c_fs (cellD s' y) = c_fs (cellD s y)) ->
-    forall f f', a < f -> a < f' -> tree_cid H ct f s' a = tree_cid H ct f' s a.
-  Proof.
-    intros HK. induction a as [a IH] using lt_wf_ind. intros Hsk f f' Hf Hf'.
-    destruct f as [|f]; [lia|]. destruct f' as [|f']; [lia|]. simpl.
-    destruct (Hsk a (reach_refl _ _)) as [Hc Hfs]. rewrite Hc.
-    unfold props_of. rewrite Hfs. f_equal. f_equal. f_equal.
-    assert (Ek : kid_data (tree_cid H ct f s') (cellD s' a) = kid_data (tree_cid H ct f s') (cellD s a)).
-    { unfold kid_data, sorted_kids, kids_wf. rewrite Hfs. reflexivity. }
-    rewrite Ek. apply kid_data_ext. intros k Hk.
-    assert (Hlt : k < a) by (apply HK; exact Hk).
-    apply IH; try lia. intros y Hy. apply Hsk. eapply reach_step; eassumption.
-  Qed.
-End TreeCidReach.
+(* tree_cid reads only what the node reaches: tree_cid_reach_local, now in Proofs/LegacyHeap.v *)
 
 (* ---------- _reset_content_id ---------- *)
 Section ResetCid.
@@ -85,7 +67,7 @@ Section ResetCid.
     destruct HS as [HR [HK [HP HL]]]. destruct (HL a Hl Ha) as [Hc _].
     apply in_skids in Hk. destruct Hk as [f [i Hk]]. destruct (Hc k f i Hk) as [Hka _].
     apply IH; [|exact Hka]. assert (Hkk : In k (skids s a)) by (apply in_skids; eauto).
-    apply HK in Hkk. unfold live in *. lia.
+    eapply rank_kid_live; eassumption.
   Qed.
   (* an attached node that holds q below it, other than q itself, holds q's parent *)
   Lemma reach_parent s x q :
@@ -119,9 +101,8 @@ Section ResetCid.
     (* after recomputing q: everything that does not hold q is good, and so is q *)
     assert (Hq1 : cid_ok H ct s1 q).
     { apply cid_ok_set_cid; [exact HK | exact Hl|]. intros k Hk.
-      assert (Hlt := HK _ _ Hk).
       destruct (reach_attached s q k HS Hl Ha (reach_kid _ _ _ Hk)) as [Hka Hkl].
-      apply HG; [exact Hkl | exact Hka|]. intros Hr. apply (reach_le _ _ _ HK) in Hr. lia. }
+      apply HG; [exact Hkl | exact Hka|]. intros Hr. exact (rank_acyc _ _ _ HK Hk Hr). }
     assert (HG1 : forall x, live s1 x -> attached s1 x -> (~ reach s1 x q \/ x = q) -> cid_ok H ct s1 x).
     { intros x Hlx Hax [Hn| ->]; [|exact Hq1].
       destruct (Nat.eq_dec x q) as [->|Hne]; [exact Hq1|].
